@@ -29,6 +29,7 @@ def main():
     tier = a[a.index("--tier") + 1] if "--tier" in a else "quick"
     budget = a[a.index("--budget") + 1] if "--budget" in a else "40"
     props = [prop] + ([p for p in ("C14", "C15", "C19", "C20") if p != prop] if "--all-props" in a else [])
+    other_budget = a[a.index("--other-budget") + 1] if "--other-budget" in a else budget
     out = {"seed_dir": sd, "prop": prop}
     env = dict(os.environ, SDP_TREE=wt, PYTHONDONTWRITEBYTECODE="1")
     env.pop("PYTHONPATH", None)
@@ -55,7 +56,7 @@ def main():
             sh(["git", "-C", wt, "checkout", "--", "simple_ddl_parser/parsetab.py"])
         out["checks"] = {}
         for p in props:
-            cenv = dict(os.environ, VERIF_REPO=wt, VERIF_BUDGET_S=budget, VERIF_NO_EVIDENCE="1")
+            cenv = dict(os.environ, VERIF_REPO=wt, VERIF_BUDGET_S=budget if p == prop else other_budget, VERIF_NO_EVIDENCE="1")
             cenv.pop("PYTHONPATH", None)
             t0 = time.time()
             rc, o = sh([PY, os.path.join(VERIF, "dst", "check.py"), p, tier if p == prop else "quick"], cwd=VERIF, env=cenv)
